@@ -570,3 +570,66 @@ func TestVerifC16(t *testing.T) {
 	}
 	c16Sessions(t, out, r)
 }
+
+// TestVerifC16Replay re-executes the operations of one recorded case
+// ($VERIF_REPLAY_CASE) on the implementation and writes the fresh observations.
+// kind 0 and kind 1 cases are re-executed exactly; a kind 2 session depends on
+// the generated multiaddrs and is re-judged from its recorded observations only.
+func TestVerifC16Replay(t *testing.T) {
+	c := verifh.ReplayCase()
+	if len(c) < 3 {
+		t.Skip("no case")
+	}
+	out, err := verifh.Open()
+	if err != nil {
+		t.Fatal(err)
+	}
+	defer out.Close()
+	switch c[0] {
+	case 0:
+		if len(c) < 5 {
+			t.Fatal("short case")
+		}
+		h := newC16RL(out, int(c[1]), int(c[2]), int(c[3]), int(c[4]))
+		for i := 5; i < len(c); {
+			switch c[i] {
+			case 1:
+				h.clk.ns = c[i+2]
+				h.accept(c[i+1])
+				i += 7
+			case 2:
+				h.clk.ns = c[i+1]
+				h.acceptDD()
+				i += 4
+			case 3:
+				if h.r.inProgressReqs != nil || h.r.closed {
+					h.complete(c[i+1])
+				}
+				i += 3
+			case 4:
+				h.close()
+				i++
+			default:
+				t.Fatal("bad op")
+			}
+		}
+		out.Case(h.line)
+	case 1:
+		k := int(c[2])
+		var msgs []c16Msg
+		for i := 0; i < k; i++ {
+			mk, l, d := c[3+3*i], c[4+3*i], c[5+3*i]
+			switch {
+			case mk != 0:
+				msgs = append(msgs, c16Msg{mk: 1, wire: append(c16Uvarint(uint64(500)), make([]byte, 7)...)})
+			case l == d:
+				msgs = append(msgs, c16Raw(int(l), 5))
+			default:
+				msgs = append(msgs, c16WellFormed(int(d)))
+			}
+		}
+		c16RunDialData(out, int(c[1]), msgs, 0)
+	default:
+		t.Skip("kind 2 sessions are re-judged from the recorded observations")
+	}
+}
